@@ -110,7 +110,8 @@ def collection_to_genbank(
         if organism:
             seqrecord.annotations["organism"] = organism
 
-        for gene_or_feature in collection:
+        # variant collections have no GenBank representation: only genes and feature collections are written
+        for gene_or_feature in collection.iter_non_variant_children():
             seqrecord.features.extend(
                 gene_to_feature(gene_or_feature, genbank_type, force_strand, translation_table, update_translations)
             )
